@@ -17,7 +17,7 @@ def run(chk, tier):
                 'start <= i < end (evaluated on every region of the partition), looked up in the called method\'s own list; K3: the ordered '
                 'arm checks the arguments against exactly that pattern, once, and every deviation is an error; the response of an ordered '
                 'pattern is chosen by its own match counter (R02.3).')
-    for cfg in configs(tier, thorough=('std', 'nostd-spin', 'mocks')):
+    for cfg in configs(tier, thorough=('std', 'mocks', 'nostd-spin', 'nostd')):
         F = load(chk, cfg)
         range_assignment(chk, F, 'R04.1', cfg)
         E.selector_rules(chk, F, cfg, r_scan=None, r_pure=None, r_ord='R04.5', r_bump='R04.2')
